@@ -1,6 +1,6 @@
 ---------------------------- MODULE MC_Fin ----------------------------
 EXTENDS Fin
-FAll  == {"drain", "never", "done"}
+FAll  == {"drain", "never", "done", "hasty"}
 FOne  == {"drain"}
 KBoth == {"composite", "decorator"}
 KComp == {"composite"}
